@@ -133,6 +133,8 @@ struct Ctx {
     viol: Vec<(String, String)>,
     r_const: usize,
     monitors: bool,
+    // an undocumented panic happened: the map may be corrupt, the history is abandoned
+    abort: bool,
 }
 
 const NSLOTS: usize = 4;
@@ -322,9 +324,33 @@ fn run_op(cx: &mut Ctx, spec: OpSpec, body: impl FnOnce(&mut Ctx) -> Out) -> Out
         }
         if let Out::P(ref cl) = out {
             if cl.starts_with("other") {
+                cx.abort = true;
                 vio("C01", format!("undocumented panic {} in [{}]", cl, spec.toks));
-                if cl.contains("overflow") || cl.contains("assert") {
-                    vio("C17", format!("profile-dependent panic {} in [{}]", cl, spec.toks));
+                let arith = cl.contains("attempt_to") || cl.contains("overflow");
+                let hb_assert = cl.contains("assertion") && !cl.contains("leftovers");
+                if arith || cl.contains("assert") {
+                    vio("C17", format!("panic that only a debug build raises, or a wrapped size: {} in [{}]", cl, spec.toks));
+                }
+                if cl.contains("leftovers.is_none") || (arith && matches!(spec.kind, "ins" | "entry" | "rawentry" | "extend" | "fromiter")) {
+                    vio("C04", format!("no room left in the main table while a resize is pending: {} in [{}]", cl, spec.toks));
+                }
+                if hb_assert || cl.contains("unreachable") {
+                    vio("C05", format!("hashbrown consistency assertion failed: {} in [{}]", cl, spec.toks));
+                }
+                if matches!(spec.kind, "reserve" | "tryreserve" | "shrink") {
+                    vio("C10", format!("capacity call panicked: {} in [{}]", cl, spec.toks));
+                }
+                if matches!(spec.kind, "entry" | "rawentry" | "rawget") {
+                    vio("C12", format!("entry call panicked: {} in [{}]", cl, spec.toks));
+                }
+                if matches!(spec.kind, "clone" | "clonefrom" | "eq") {
+                    vio("C11", format!("clone/eq panicked: {} in [{}]", cl, spec.toks));
+                }
+                if matches!(spec.kind, "retain" | "drainfilter") {
+                    vio("C09", format!("retain/drain_filter panicked: {} in [{}]", cl, spec.toks));
+                }
+                if matches!(spec.kind, "iter" | "keys" | "values" | "iter_mut" | "values_mut" | "drain" | "intoiter") {
+                    vio("C08", format!("iterator panicked: {} in [{}]", cl, spec.toks));
                 }
             }
         }
@@ -377,6 +403,16 @@ fn run_op(cx: &mut Ctx, spec: OpSpec, body: impl FnOnce(&mut Ctx) -> Out) -> Out
                         }
                         if carried && expect == 0 && a.old.is_some() && a.old.unwrap().1 == b.old.unwrap().1 {
                             vio("C03", format!("old table not released when emptied by [{}]", spec.toks));
+                        }
+                    }
+                }
+                // C03: removal paths that must release an old table they empty
+                let must_free = matches!(spec.kind, "remove" | "remove_entry" | "drainfilter")
+                    || (matches!(spec.kind, "entry" | "rawentry") && (spec.toks.contains(" orem") ) && !spec.toks.contains("orepw") && !spec.toks.contains("andrep"));
+                if must_free {
+                    if let (Some((bl, _, _)), Some((0, _, _))) = (b.old, a.old) {
+                        if bl > 0 {
+                            vio("C03", format!("the old table was emptied by [{}] but is still allocated", spec.toks));
                         }
                     }
                 }
@@ -1580,6 +1616,7 @@ fn main() {
     let mut monitors = true;
     let mut statsp: Option<String> = None;
     let mut only: Option<u64> = None;
+    let mut progressp: Option<String> = None;
     let mut i = 1;
     while i < args.len() {
         match args[i].as_str() {
@@ -1589,6 +1626,7 @@ fn main() {
             "--out" => { outp = args[i + 1].clone(); i += 1 }
             "--stats" => { statsp = Some(args[i + 1].clone()); i += 1 }
             "--maxops" => { maxops = args[i + 1].parse().unwrap(); i += 1 }
+            "--progress" => { progressp = Some(args[i + 1].clone()); i += 1 }
             "--only" => { only = Some(args[i + 1].parse().unwrap()); i += 1 }
             "--no-monitors" => monitors = false,
             x => panic!("unknown argument {}", x),
@@ -1623,6 +1661,7 @@ fn main() {
             viol: Vec::new(),
             r_const: 8,
             monitors,
+            abort: false,
         };
         // R is read from the implementation
         let probe: Map = Map::with_hasher(HB { kind: 0, id: 0 });
@@ -1630,8 +1669,20 @@ fn main() {
         drop(probe);
         cx.r_const = r;
         writeln!(cx.out, "H {} {} 0 {} {}", r, debug as u8, std::mem::size_of::<(K, V)>(), cx.hist_id).unwrap();
+        // progress marker, flushed before the history runs: a hang or a crash is then attributable
+        if let Some(ref p) = progressp {
+            let _ = std::fs::write(p, format!("{}\n", cx.hist_id));
+        }
         gen::history(&mut cx, &family, maxops);
         // end of history: drop everything; nothing may stay alive
+        if cx.abort {
+            // possibly corrupt maps are leaked, not dropped
+            for s in 0..NSLOTS {
+                std::mem::forget(cx.maps[s].take());
+            }
+            cx.bump("forgotten");
+            cx.bump("abandoned");
+        }
         for s in 0..NSLOTS {
             if cx.maps[s].is_some() {
                 op_drop(&mut cx, s);
